@@ -265,6 +265,32 @@ theorem history_addresses_registered_streams (ins : List QIn) :
       · exact ih _ hstep.1 o ho tc id' ht
   exact gen ins _ (init_inv ops)
 
+/-! ### the write guard of `event_to_child` (step-local; the whole-history form is not proved, see level_note) -/
+
+/-- data for a side of a stream whose sending direction mitmproxy has already closed is dropped, not sent -/
+theorem no_data_to_unwritable_side (rec : TS σ → List C29.Output → TS σ) (ts : TS σ) (to : C29.Side) (d : Bytes)
+    (hw : (ts.s.conn to).canWrite = false) (hid : ts.s.idOf to ≠ none) :
+    procOne ops rec ts (.send to d) = ts := by
+  unfold procOne
+  split
+  · rfl
+  · simp only
+    split
+    · rename_i h; exact absurd h hid
+    · simp [hw]
+
+/-- a half-close command (FIN) leaves that side of the stream unwritable -/
+theorem fin_makes_side_unwritable (rec : TS σ → List C29.Output → TS σ) (ts : TS σ) (to : C29.Side)
+    (hh : ts.halt = false) (hid : ts.s.idOf to ≠ none) :
+    ((procOne ops rec ts (.close to true)).s.conn to).canWrite = false := by
+  unfold procOne
+  simp only [hh, Bool.false_eq_true, if_false]
+  split
+  · rename_i h; exact absurd h hid
+  · cases hw : (ts.s.conn to).canWrite
+    · simp [hw]
+    · cases to <;> simp [hw, TS.push, Stream.conn, Stream.setConn]
+
 /-! ### non-vacuity: concrete runs of the model with the C29 relay as child -/
 
 private def demo : List QIn :=
